@@ -45,6 +45,7 @@ def run(chk):
     chk.rule("R2", "ORDER BY composition: arrange prepends, summarize/union clear, other verbs keep; Polars sorts stably")
     chk.rule("R3", "flag mapping for descending / nulls_last on SQL and Polars, marker peeling in Order.from_col_expr")
     chk.rule("R4", "grouping state injected as partition_by for every non-element-wise function type")
+    chk.rule("R9", "running aggregates (cum_sum) order ties: every SQL back end appends the random tie-breaker to ORDER BY inside OVER(), except the listed engines that cannot (one reason each); the base implementation returns True")
     chk.rule("R5", "partition_by / order_by reach OVER() unswapped on both back ends; shift offset sign -> LAG / LEAD")
     chk.rule("R8", "Polars window functions without partition: arrange= takes effect for every argument count (finite-domain evaluation of the ColFn branch)")
     chk.rule("R6", "interval analysis: the rank-based emulation of descending / nulls_last orders keys correctly and its null sentinels dominate the key range for every row count")
@@ -139,6 +140,23 @@ def run(chk):
     uses = [c for c in calls_in(pf2) if dotted(c.func) == "merge_desc_nulls_last"]
     chk.ob("R6", pol, pf2, "merge_desc_nulls_last feeds over(order_by=) and the rank struct", len(uses) >= 2 and all([norm(a) for a in c.args] == ["order_by", "descending", "nulls_last"] for c in uses),
            "the descending / nulls_last emulation is not applied (or with permuted arguments) where the ordering reaches `over` / rank")  # fmt: skip
+
+    # ---- R9 who may switch the tie-breaker off (without it, rows with equal keys are peers of the default RANGE frame and all
+    # receive the sum of the whole tie group - not a running sum along any order)
+    NO_TIE_BREAKER = {"IbmDb2Impl": "DB2 forbids RAND() in ORDER BY of an OVER clause"}
+    n9 = 0
+    for ci in sym.cls("TableImpl").descendants():
+        f9 = ci.methods.get("dialect_order_append_rand")
+        if f9 is None:
+            continue
+        n9 += 1
+        rets = [r_.value for r_ in ast.walk(f9) if isinstance(r_, ast.Return)]
+        always_true = bool(rets) and all(isinstance(v, ast.Constant) and v.value is True for v in rets)
+        chk.ob("R9", ci.module, f9, f"{ci.name}.dialect_order_append_rand: {'True' if always_true else 'not always True'}",
+               always_true or ci.name in NO_TIE_BREAKER,
+               f"{ci.name} switches off the random tie-breaker of cum_sum's ORDER BY: rows with equal arrange keys become peers of SQL's default "
+               "RANGE frame and all get the sum of the whole tie group, which is a running sum along no row order (Polars returns one)")  # fmt: skip
+    chk.floor("R9", "dialect_order_append_rand definitions", n9, 2)
 
     # ---- R5
     _over_wiring(chk, repo, m)
@@ -360,18 +378,22 @@ def _dedup_interpreted(chk, repo):
 
     sql = repo.mod("backend.sql")
     f = sql.func("dedup_order_by")
-    stub = ast.parse("class UnaryExpression:\n    element: object = None\n    modifier: object = None\nclass Column:\n    name: object = None\n")
+    stub = ast.parse("class UnaryExpression:\n    element: object = None\n    modifier: object = None\nclass Column:\n    name: object = None\nclass Label:\n    name: object = None\n    element: object = None\n")
     env: dict = {}
     it = Interp(sql, env)
     for c in stub.body:
         c.decorator_list = [ast.Name(id="dataclass", ctx=ast.Load())]
         env[c.name] = it.make_class(c, env)
         env[c.name].is_dataclass = True
-    env["sqa"] = _ModuleNS({"UnaryExpression": env["UnaryExpression"], "ColumnElement": env["Column"]})
+    env["sqa"] = _ModuleNS({"UnaryExpression": env["UnaryExpression"], "ColumnElement": env["Column"], "Label": env["Label"], "Column": env["Column"]})
     keys = []
-    for nm in ("k", "v"):
-        o = Obj(env["Column"])
+    # ordering keys are labelled column expressions; two different columns may carry the same label name (an overwritten
+    # column and the column that replaced it) - they are different keys
+    for cls_, nm in (("Column", "k"), ("Label", "v"), ("Label", "k"), ("Label", "k")):
+        o = Obj(env[cls_])
         o.attrs["name"] = nm
+        if cls_ == "Label":
+            o.attrs["element"] = None
         keys.append(o)
 
     def wrap(key, mods):
@@ -384,7 +406,7 @@ def _dedup_interpreted(chk, repo):
 
     variants = []
     for key in keys:
-        for mods in ((), ("asc",), ("desc",), ("desc", "nulls_last"), ("asc", "nulls_first")):
+        for mods in ((), ("desc",), ("desc", "nulls_last")):
             variants.append((key, mods))
     fn = Func(f, env, it)
     n = 0
